@@ -260,7 +260,7 @@ Definition parse_err_ext (src : bytes) : option (N * N * N) :=
   | (ts, LDone) =>
     match parse_tokensE ts with
     | ErrE (t :: _) => Some (tok_ext t)
-    | ErrE [] => Some (nlen src, nlen src, nlen src)
+    | ErrE [] => Some (tok_ext (last ts (end_marker (nlen src))))   (* not reached: a lexed stream ends with its EOF token *)
     | _ => None
     end
   | (ts, LBad s e) =>
